@@ -51,7 +51,7 @@ func allHosts(maxLen int) []string {
 		if len(cur) == maxLen {
 			return
 		}
-		for _, c := range "ab." {
+		for _, c := range "ab.1" {
 			rec(cur + string(c))
 		}
 	}
@@ -63,7 +63,7 @@ var structured = []string{"", "a.b:80", "a.b.", "a.b.:80", "a.b..", "b.a.b:8080"
 
 func patterns() []string {
 	var pats []string
-	for _, h := range []string{"a.b", "b.a.b", "{h}.b", "a.{t}", "a{m}.b", "{h}.{t}"} {
+	for _, h := range []string{"a.b", "b.a.b", "{h}.b", "a.{t}", "a{m}.b", "{h}.{t}", "1.{t}"} {
 		for _, p := range []string{"/", "/a", "/a/", "/{p0}", "/*{c0}"} {
 			pats = append(pats, h+p)
 		}
@@ -168,14 +168,14 @@ func eval(e *rsx.Env, rq rsx.Req) (bool, bool, string, string) {
 func run(c *mc.Ctx, r *mc.Result) {
 	pats := patterns()
 	k := 3
-	hostLen := 6
+	hostLen := 5
 	if c.Quick() {
 		k = 2
-		hostLen = 5
+		hostLen = 4
 	}
 	hosts := append(allHosts(hostLen), structured...)
 	paths := rsx.GenPaths([]string{"a", "b"}, 2)
-	r.Bounds["pool"] = fmt.Sprintf("%d patterns, subsets<=%d, all hosts of length<=%d over {a,b,.} (%d) + %d structured, %d paths", len(pats), k, hostLen, len(hosts)-len(structured), len(structured), len(paths))
+	r.Bounds["pool"] = fmt.Sprintf("%d patterns, subsets<=%d, all hosts of length<=%d over {a,b,1,.} (%d) + %d structured, %d paths", len(pats), k, hostLen, len(hosts)-len(structured), len(structured), len(paths))
 	stopped := false
 	rsx.Subsets(len(pats), k, func(i int, idx []int) {
 		if !c.Mine(i) || stopped {
@@ -237,7 +237,7 @@ func init() {
 	mc.Register(&mc.Check{
 		ID:    "C09",
 		Level: "exploration",
-		Rule: "every subset (size<=K) of a 35-pattern pool mixing hostname and path-only patterns x every Host string up to a length over {a,b,.} plus structured variants (port, trailing dot, IPv4/IPv6 literals, empty, garbage) x paths of depth<=2; " +
+		Rule: "every subset (size<=K) of a 35-pattern pool mixing hostname and path-only patterns x every Host string up to a length over {a,b,1,.} plus structured variants (port, trailing dot, IPv4/IPv6 literals, empty, garbage) x paths of depth<=2; " +
 			"non-trivial = the method has hostname routes and the host equals a hostname pattern or contains its distinguishing label",
 		Assumptions: []string{
 			"host normalisation reference: net.SplitHostPort when a ':' is present (unchanged on error), then one trailing dot removed",
